@@ -7,7 +7,7 @@ _TB = ("Trusted base: clang 14 front end (AST, CFG, constant evaluator), the pyt
 
 CLAIMS = {
     "C01": {
-        "text": "Decides the table/database/dispatch clauses only: every entry of the encoder's constant lookup tables equals an independent oracle (exhaustive, 1237 entries), every instruction row's main/alt opcode (prefix, map, byte, /digit) occurs in a db/isa_x86.json form of the mnemonic (1769 cells), every encoding class has a dispatch case, FIXUP_GPB constants, pc-relative displacements account for the trailing immediate and take the current position from the writer cursor, REX is the last prefix and FWAIT precedes the overrides on every path, register ids are not compared before FIXUP_GPB, packed ModRM fields are not tested after a merge, generated tables regenerate identically (thorough).; invalid-marker entries of the 16-bit addressing tables are tested before use; operands are reinterpreted only as the kind the dominating test established; the displacement-less ModRM form excludes BP/R13 (16-bit: the disp16 slot), a path that knows the operand has an index register reads its scale before the instruction is closed, 64-bit immediates are range-tested unsigned or on both sides, and the validator consults the EVEX-capability flags the register allocator uses before it can accept vector registers 16..31 Does not decide ModRM/immediate arithmetic over operand values.",
+        "text": "Decides the table/database/dispatch clauses only: every entry of the encoder's constant lookup tables equals an independent oracle (exhaustive, 1237 entries), every instruction row's main/alt opcode (prefix, map, byte, /digit) occurs in a db/isa_x86.json form of the mnemonic (1769 cells), every encoding class has a dispatch case, FIXUP_GPB constants, pc-relative displacements account for the trailing immediate and take the current position from the writer cursor, REX is the last prefix and FWAIT precedes the overrides on every path, register ids are not compared before FIXUP_GPB, packed ModRM fields are not tested after a merge, generated tables regenerate identically (thorough).; invalid-marker entries of the 16-bit addressing tables are tested before use; operands are reinterpreted only as the kind the dominating test established; the displacement-less ModRM form excludes BP/R13 (16-bit: the disp16 slot), a path that knows the operand has an index register reads its scale before the instruction is closed, 64-bit immediates are range-tested unsigned or on both sides, and the validator consults the EVEX-capability flags the register allocator uses before it can accept vector registers 16..31 Does not decide ModRM/immediate arithmetic over operand values. Also (round 8): no ModRM/SIB path of _emit ends without the kind of the base (label / register) having been tested (R-LABEL-BASE-LOOKED-AT).",
         "design_ref": "DESIGN.md section 3 / C01",
         "note": _TB,
         "technique": "constant-evaluated table dump (clang APValue) compared with independent oracle tables and the ISA database; switch-coverage lint",
@@ -19,7 +19,7 @@ CLAIMS = {
         "technique": "must/may forward dataflow over clang CFG (validate-before-emit), switch coverage, table-vs-database agreement",
     },
     "C03": {
-        "text": "Decides bookkeeping/ordering clauses: label ids validated on the taken edge before label entries are dereferenced; the unresolved counter is written only in its inverse-pair forms and subtracted on every exit that ran the fixup iterator; one iterator advance per iteration and release only after a successful patch; survivor splice; OffsetFormat literals satisfy the encoder's preconditions; pc-relative addends account for trailing immediates and use the writer cursor; a label relocation takes offset and section from the same label entry; the displacement codec never narrows a 64-bit displacement without a range or round-trip test.; a reference from another section takes its target section from the label; a fixup list is attached to a label entry only on the edge where it is not bound; bind_label resolves fix-ups against the bound section; a label distance reaches a narrower field only under a dominating range predicate; a64: a memory operand's base id becomes a label id only under has_base_label(); (in-place modulo-2^32 narrowing of label arithmetic is refused, is_32bit() counts as a range guard); a full-width mask of a signed 64-bit displacement is a narrowing; every caller of write_offset() reports a refused displacement Does not decide displacement values.",
+        "text": "Decides bookkeeping/ordering clauses: label ids validated on the taken edge before label entries are dereferenced; the unresolved counter is written only in its inverse-pair forms and subtracted on every exit that ran the fixup iterator; one iterator advance per iteration and release only after a successful patch; survivor splice; OffsetFormat literals satisfy the encoder's preconditions; pc-relative addends account for trailing immediates and use the writer cursor; a label relocation takes offset and section from the same label entry; the displacement codec never narrows a 64-bit displacement without a range or round-trip test.; a reference from another section takes its target section from the label; a fixup list is attached to a label entry only on the edge where it is not bound; bind_label resolves fix-ups against the bound section; a label distance reaches a narrower field only under a dominating range predicate; a64: a memory operand's base id becomes a label id only under has_base_label(); (in-place modulo-2^32 narrowing of label arithmetic is refused, is_32bit() counts as a range guard); a full-width mask of a signed 64-bit displacement is a narrowing; every caller of write_offset() reports a refused displacement Does not decide displacement values. Also (round 8): a displacement known at encoding time goes into a one-byte field only on the taken edge of is_int_n<8>() of the same value (R-DISP8-FITS); a label base is looked at on every ModRM/SIB path (R-LABEL-BASE-LOOKED-AT).",
         "design_ref": "DESIGN.md section 3 / C03",
         "note": _TB,
         "technique": "dominance / must-pass-through dataflow on CFG, inverse-pair structural rule, constant-argument checks",
@@ -48,7 +48,7 @@ CLAIMS = {
     "C09": {
         "text": "Decides accounting/guard/flag clauses C09.a-e: statistics updates come in inverse pairs, release/shrink/query agree on the guards "
                 "applied to a looked-up address, is_initialized distinguishes the null implementation, empty-block policy writes, roll-back in "
-                "new_block, every site that sets the empty flag rebuilds the same free-space cache fields, area/byte conversions use the pool's granularity., a block that is re-inserted into the tree has its links cleared, the emptiness test follows every path that lowers the used area, the secure fill walks the used ranges, release/shrink accept only the start of a span, query included; bound tests do not add two caller-controlled sizes before bounding each; the block-size computation counts the initial padding on every path; an internal shrink is never asked for size 0; release/shrink widen both ends of the block's search window (sums of unbounded locals included) Does not decide disjointness/alignment over histories.",
+                "new_block, every site that sets the empty flag rebuilds the same free-space cache fields, area/byte conversions use the pool's granularity., a block that is re-inserted into the tree has its links cleared, the emptiness test follows every path that lowers the used area, the secure fill walks the used ranges, release/shrink accept only the start of a span, query included; bound tests do not add two caller-controlled sizes before bounding each; the block-size computation counts the initial padding on every path; an internal shrink is never asked for size 0; release/shrink widen both ends of the block's search window (sums of unbounded locals included) Does not decide disjointness/alignment over histories. Also (round 8): a block pointer taken from a caller's Span is dereferenced only where it compared equal to the result of impl->tree.get() (R-SPAN-BLOCK-LOOKED-UP).",
         "design_ref": "DESIGN.md section 3 / C09",
         "note": _TB,
         "technique": "inverse-pair and sibling-guard structural rules, constant evaluation, acquire/release pairing on CFG",
@@ -69,7 +69,7 @@ CLAIMS = {
         "technique": "lock-held must-analysis over CFG + call graph; LLVM IR writable-global audit; const_cast lint",
     },
     "C12": {
-        "text": "Decides table/database agreement: RW/flag/feature/rm tables regenerate byte-identically from db/; AArch64 mnemonics with register-run forms carry the consecutive flag (known finding: tbl/tbx); x86 forms with relative register operands report the run's lead count and follower flags; every operand the x86 rm table flags as replaceable by memory has, for each all-register database form, a memory form of the prescribed size (1162 operand obligations; 31 known findings because the information is kept per instruction id); in x86 query_rw_info every success exit of an AVX-512 capable category goes through the {k}/merge-masking step; multi-argument bit masks are built from one enum type.; byte masks agree with the access kind and size of the operand they are set on; {sae} is treated like {er}; the PEXTRW exemption of the reg/mem agreement is derived from query_rw_info; the EVEX / AVX2 decisions of query_features, folded over every operand shape of the database's VEX and EVEX forms, equal what only the newer encoding can express Does not decide what the CPU reads, writes or requires.",
+        "text": "Decides table/database agreement: RW/flag/feature/rm tables regenerate byte-identically from db/; AArch64 mnemonics with register-run forms carry the consecutive flag (known finding: tbl/tbx); x86 forms with relative register operands report the run's lead count and follower flags; every operand the x86 rm table flags as replaceable by memory has, for each all-register database form, a memory form of the prescribed size (1162 operand obligations; 31 known findings because the information is kept per instruction id); in x86 query_rw_info every success exit of an AVX-512 capable category goes through the {k}/merge-masking step; multi-argument bit masks are built from one enum type.; byte masks agree with the access kind and size of the operand they are set on; {sae} is treated like {er}; the PEXTRW exemption of the reg/mem agreement is derived from query_rw_info; the EVEX / AVX2 decisions of query_features, folded over every operand shape of the database's VEX and EVEX forms, equal what only the newer encoding can express Does not decide what the CPU reads, writes or requires. Also (round 8): nothing stores to the operand records after the AVX-512 step of x86 query_rw_info (R-AVX512-STEP-LAST); both sibling loops of a64 query_rw_info consult the element index (R-LANE-MASK-LOOKED-AT); every site of x86 query_features that drops AVX512_F is controlled by all EVEX-only indicators, and reg_analysis feeds broadcast and ids 16..31 into them (R-EVEX-INDICATORS-CONSULTED).",
         "design_ref": "DESIGN.md section 3 / C12",
         "note": _TB + " db/*.js readers and tools/tablegen*.js are run under node as the repository's own generator.",
         "technique": "generated-table regeneration diff; table-vs-database agreement",
@@ -77,13 +77,13 @@ CLAIMS = {
     "C13": {
         "text": "Decides clauses C13.a-c: signature/name tables regenerate identically, the packed name index satisfies the binary-search "
                 "preconditions for every id (exhaustive), the validation hook precedes any buffer commit and its failure reaches the error exit; the a64 name scan decodes every id; the x86 validator "
-                "adds the vm flags that match the index register type.; AArch64 vector arrangements accepted per row exist in the database and the database's arrangement lists agree with the Q bit of their opcode; the x86 validator rejects {z} with a memory destination; FP and exact-signature shapes as in C02; each x86 emitter selects the validator by mode inside on_attach; the validator gives a vector-index operand no plain memory flag, compares implicit registers for every operand class that has them, and its per-mode base/index register sets equal the architecture; the validator reads every EVEX-capability flag the register allocator branches on where kInvalidPhysId is still reachable; a decision made from {er} alone is dominated by one that looks at {sae} too; merged reg|mem operand signatures are excluded from the memory-base register comparison; the broadcast block of the validator, evaluated for kB16/32/64 and the specified sizes, refuses exactly the wrong sizes; the explicit-counter branch of jecxz/loop accepts the database's counter sizes with the right address-size override Does not decide per-form acceptance agreement.",
+                "adds the vm flags that match the index register type.; AArch64 vector arrangements accepted per row exist in the database and the database's arrangement lists agree with the Q bit of their opcode; the x86 validator rejects {z} with a memory destination; FP and exact-signature shapes as in C02; each x86 emitter selects the validator by mode inside on_attach; the validator gives a vector-index operand no plain memory flag, compares implicit registers for every operand class that has them, and its per-mode base/index register sets equal the architecture; the validator reads every EVEX-capability flag the register allocator branches on where kInvalidPhysId is still reachable; a decision made from {er} alone is dominated by one that looks at {sae} too; merged reg|mem operand signatures are excluded from the memory-base register comparison; the broadcast block of the validator, evaluated for kB16/32/64 and the specified sizes, refuses exactly the wrong sizes; the explicit-counter branch of jecxz/loop accepts the database's counter sizes with the right address-size override Does not decide per-form acceptance agreement. Also (round 8): every register id the x86 validator reads (operand, memory base, memory index, {k}) is tested against allowed_reg_mask of its own register type with a failing clear side (R-PHYS-ID-MASK-APPLIED).",
         "design_ref": "DESIGN.md section 3 / C13",
         "note": _TB,
         "technique": "regeneration diff, exhaustive decode of dumped name tables, CFG dominance",
     },
     "C14": {
-        "text": "Decides guard/atomicity clauses: label ids validated before dereference; AArch64 register ids validated before packing; emit functions (x86, a64, Builder) reset one-shot state on every exit, commit bytes only on success, never reach an input-validation exit after a fixup/relocation/address-table commit; the shared failure exit resets state before the handler can throw; AArch64 64-bit immediates are range-tested before narrowing and condition codes are bounded by the enum; label-count comparisons are strict; every failing return of an emitter interface function passes through report_error() (flow-sensitive), one-shot state is reset before the handler runs, a label is validated before the first commit of a multi-step function; constant-table subscripts are bounded for arbitrary operands (38 subscripts, upper-bound evaluator) and the opcode MM field stays inside its table; the CodeHolder is used only after `_code` was tested.; Builder::bind and the other registry-node adders link a node only when it is known not to be part of the list; operand reinterpretation, invalid-marker tables, memory index type, shift-type class and sibling range tests as in C02; lossless-shift, register-type and FP-shape rules as in C02; every non-noexcept Builder/Compiler API function reports its errors; Compiler functions grab the one-shot state before every exit; the a64 id range / condition tests read the raw id; BaseEmitter dispatchers that forward to _emit() fail through reset_state() + report_error(); 64-bit immediates are range-tested unsigned or on both sides; no label is registered before the arguments were validated; index write-back mode as in C02; in the two _emit functions every reporting call is a callee that resets first or is reached after reset_state(); log lines are written only after the last refusing step; Section identity as in C08 Does not decide that every invalid operand kind is rejected, nor operand-indexed table subscripts.",
+        "text": "Decides guard/atomicity clauses: label ids validated before dereference; AArch64 register ids validated before packing; emit functions (x86, a64, Builder) reset one-shot state on every exit, commit bytes only on success, never reach an input-validation exit after a fixup/relocation/address-table commit; the shared failure exit resets state before the handler can throw; AArch64 64-bit immediates are range-tested before narrowing and condition codes are bounded by the enum; label-count comparisons are strict; every failing return of an emitter interface function passes through report_error() (flow-sensitive), one-shot state is reset before the handler runs, a label is validated before the first commit of a multi-step function; constant-table subscripts are bounded for arbitrary operands (38 subscripts, upper-bound evaluator) and the opcode MM field stays inside its table; the CodeHolder is used only after `_code` was tested.; Builder::bind and the other registry-node adders link a node only when it is known not to be part of the list; operand reinterpretation, invalid-marker tables, memory index type, shift-type class and sibling range tests as in C02; lossless-shift, register-type and FP-shape rules as in C02; every non-noexcept Builder/Compiler API function reports its errors; Compiler functions grab the one-shot state before every exit; the a64 id range / condition tests read the raw id; BaseEmitter dispatchers that forward to _emit() fail through reset_state() + report_error(); 64-bit immediates are range-tested unsigned or on both sides; no label is registered before the arguments were validated; index write-back mode as in C02; in the two _emit functions every reporting call is a callee that resets first or is reached after reset_state(); log lines are written only after the last refusing step; Section identity as in C08 Does not decide that every invalid operand kind is rejected, nor operand-indexed table subscripts. Also (round 8): R-PHYS-ID-MASK-APPLIED (see C13).",
         "design_ref": "DESIGN.md section 3 / C14",
         "note": _TB,
         "technique": "must-set / reachability dataflow on clang CFG, sibling-guard comparison, index-range vs table-length check",
@@ -95,28 +95,30 @@ CLAIMS = {
         "technique": "null-tested must-analysis, discarded-result lint with frozen exception table, dominance, free-escape typestate",
     },
     "C16": {
-        "text": "Decides: every arena-backed container, pointer and field mutated after construction of CodeHolder, BaseEmitter, BaseAssembler, BaseBuilder, BaseCompiler, BaseRAPass and ConstPool is reset in the closure of each reset entry point, or exempt with a reason (126 obligations); array members are reset element-wise, ArenaHashBase::reset covers every field; every override of on_attach/on_detach/on_reinit calls the handler it overrides on every path; no function of the code-generation units orders object pointers by address.; flag accessors of Section/RelocEntry-like records fold to set/clear/test on a value grid; a new Section is completely initialised, including all bytes of its name; the embedded .text section is completely re-initialised by init()/reinit() and reinit() restores the initial base address; shared flag words are only changed bitwise; a temporarily replaced error handler / logger is put back with its ownership (own vs inherited) preserved Does not decide byte equality of recycled vs fresh generation nor address independence.",
+        "text": "Decides: every arena-backed container, pointer and field mutated after construction of CodeHolder, BaseEmitter, BaseAssembler, BaseBuilder, BaseCompiler, BaseRAPass and ConstPool is reset in the closure of each reset entry point, or exempt with a reason (126 obligations); array members are reset element-wise, ArenaHashBase::reset covers every field; every override of on_attach/on_detach/on_reinit calls the handler it overrides on every path; no function of the code-generation units orders object pointers by address.; flag accessors of Section/RelocEntry-like records fold to set/clear/test on a value grid; a new Section is completely initialised, including all bytes of its name; the embedded .text section is completely re-initialised by init()/reinit() and reinit() restores the initial base address; shared flag words are only changed bitwise; a temporarily replaced error handler / logger is put back with its ownership (own vs inherited) preserved Does not decide byte equality of recycled vs fresh generation nor address independence. Also (round 8): R-FREED-BLOCK-NOT-LINKED - no arena function returns with a freed block still linked (shape analysis).",
         "design_ref": "DESIGN.md section 3 / C16",
         "note": _TB,
         "technique": "reset-closure coverage over class fields (call graph + field writes), must-call rule, pointer-compare lint",
     },
     "C17": {
         "text": "Decides structural clauses C17.a-d: every success exit of the offset encoders is range-guarded, stores only OR in masked fields, "
-                "OffsetType/value-size dispatch is complete, ADR/ADRP split positions equal the database fields, no 64-bit displacement is narrowed without a dominating range predicate or a round-trip comparison, discarded low bits are tested to be zero before every shift by imm_discard_lsb() (codec and AArch64 direct path).; every caller of write_offset() reports a refusal; the 32-bit move-wide sequence never uses MOVN with sf Does not decide exactness per value.",
+                "OffsetType/value-size dispatch is complete, ADR/ADRP split positions equal the database fields, no 64-bit displacement is narrowed without a dominating range predicate or a round-trip comparison, discarded low bits are tested to be zero before every shift by imm_discard_lsb() (codec and AArch64 direct path).; every caller of write_offset() reports a refusal; the 32-bit move-wide sequence never uses MOVN with sf Does not decide exactness per value. Also (round 8): R-DISP8-FITS (see C03).",
         "design_ref": "DESIGN.md section 3 / C17",
         "note": _TB,
         "technique": "dominance on CFG, expression-shape rule, switch coverage, database field agreement",
     },
     "C18": {
-        "text": "Decides one clause (\"reports failures instead of overrunning\", null termination) for the formatting entry points of the string class and "
-                "the arena: the value returned by vsnprintf() - the length the output would have had - is used as an index, a copy length or the new size "
-                "after formatting in place only where it is shown (linear reasoning over dominating comparisons, min() bounds) to stay inside the size "
-                "given to the call. Does not decide the abstract-data-type behaviour of vector / hash / tree / list / bit set / pool / string under "
-                "operation histories (not visible in code shape; two further structural facts - dangling block link, reserve before unchecked append - "
-                "are decided under C15 / C16).",
+        "text": "Decides five structural clauses. (a) \"reports failures instead of overrunning\", null termination, for the formatting entry points of "
+                "the string class and the arena: the value returned by vsnprintf() is used as an index, a copy length or the new size only where it is "
+                "shown (linear reasoning over dominating comparisons, min() bounds) to stay inside the size given to the call. (b) \"recycles only "
+                "released ones\": no arena function returns with a block it passed to Arena_free() still the target of a member or of a link of a live "
+                "block (shape analysis over symbolic blocks). (c) the zero fill of ArenaVector resize does not depend on a reallocation. (d) no String "
+                "modify operation reports success for an assign without having replaced the content. (e) ArenaVector queries forward to the Span "
+                "operation of their own name. Does not decide the abstract-data-type behaviour of vector / hash / tree / list / bit set / pool / string "
+                "under operation histories as a whole (not visible in code shape).",
         "design_ref": "DESIGN.md section 3 / C18",
         "note": _TB,
-        "technique": "linear-arithmetic bound proof over reaching definitions and dominating comparisons at every use of a (v)snprintf result",
+        "technique": "linear-arithmetic bound proof at every use of a (v)snprintf result; shape analysis (powerset of canonically renamed points-to graphs) over the arena's block lists; must-pass-through dataflow on CFG; forwarder/namesake agreement over instantiated templates",
     },
     "C20": {
         "text": "Decides name-table clauses C20.a-c: enumerator-to-text maps equal the enumerator names, x86 register name tables equal the architectural "
